@@ -87,3 +87,10 @@ package stacktrace
 //@   ensures #CP == 1 && CP.arg0[0] == skip + 1 && CP.arg1[0] == Full
 //@   ensures #FS == 1 && FS.arg0[0] == CP.ret0[0]
 //@   ensures #SF == 1 && SF.recv[0] == CP.ret0[0] && #BF == 1
+
+// New function of the stack pool (C08): storage for at least one program counter (Capture's First depth).
+//@ func internal/stacktrace.init$1
+//@   props C08
+//@   flags nopanic
+//@   modifies nothing
+//@   ensures fresh(result) && fresh(result.storage) && len(result.storage) >= 1
